@@ -17,6 +17,7 @@ func init() {
 				{Harness: "c09.multi", Mode: "plain", Shards: 16},
 				{Harness: "c09.strings", Mode: "plain", Shards: 16},
 				{Harness: "c09.retain", Mode: "plain", Shards: 16},
+				{Harness: "c09.stream", Mode: "plain", Shards: 16, GC: "on"},
 				{Harness: "c09.lengths", Mode: "plain", Shards: 16},
 				{Harness: "c09.members", Mode: "plain", Shards: 16},
 			}
